@@ -372,7 +372,7 @@ static void sweep_xor_c05() {
     stats().extra["xor_tables"] = ref::N_XOR_SHAPES;
 }
 // payload sizes around powers of two from 64 KiB to 4 MiB (size-gated bulk paths), aligned and unaligned survivors
-static void sweep_large(const RunFn &run) {
+static void sweep_large(const RunFn &run, bool xor_only = false) {
     int shard = (int)opts().shard, ns = (int)opts().nshards, counter = 0;
     bool th = opts().tier == "thorough";
     std::vector<Config> cfgs;
@@ -380,6 +380,10 @@ static void sweep_large(const RunFn &run) {
     { Config g; g.backend = ref::B_RS; g.k = 3; g.m = 2; g.hd = 2; g.ct = CT_NONE; cfgs.push_back(g); }
     { Config g; g.backend = ref::B_XOR; g.k = 5; g.m = 5; g.hd = 4; g.ct = CT_NONE; cfgs.push_back(g); }
     if (isa_available()) { Config g; g.backend = ref::B_ISA_C; g.k = 4; g.m = 2; g.hd = 2; g.w = 8; g.ct = CT_NONE; cfgs.push_back(g); }
+    if (xor_only) {
+        cfgs.erase(std::remove_if(cfgs.begin(), cfgs.end(), [](const Config &g) { return g.backend != ref::B_XOR; }), cfgs.end());
+        { Config g; g.backend = ref::B_XOR; g.k = 6; g.m = 6; g.hd = 3; g.ct = CT_NONE; cfgs.push_back(g); }
+    }
     for (auto &g : cfgs)
         for (int p = 16; p <= (th ? 22 : 21); p++)
             for (int dlt : {-4, 0, 4, 8, 12, 16}) {
@@ -497,6 +501,7 @@ static Result run_c20(const Case &c) {
     Config g = cfg_from(c);
     if (ref::is_isa(g.backend) && !isa_available()) { r.skipped = true; return r; }
     std::vector<uint8_t> data = expand_buffer(c, "data");
+    if (c.get("crc0", 0) && make_crc0(g, data, (int)((c.get("crc0") - 1) % g.k))) r.cls("payload_crc_zero");
     Instance in(g);
     if (!in.ok()) { r.fail("create refused rc=" + std::to_string(in.desc)); return r; }
     // the stripe may have been written with the historical CRC (documented compatibility switch); validity of a
@@ -604,6 +609,12 @@ static Case gen_c20() {
         val[pos] = (int)pick(0, 1 << 16);
     }
     c.setv("dmg_kind", kind); c.setv("dmg_arg", arg); c.setv("dmg_val", val);
+    // one case in six: the (first) payload-damaged data fragment legitimately stores checksum 0
+    if (coin(1, 6)) {
+        int tgt = -1;
+        for (size_t i = 0; i < kind.size(); i++) if (kind[i] == 1 && present[i] < g.k) { tgt = present[i]; break; }
+        c.set("crc0", tgt >= 0 ? tgt + 1 : (int)pick(1, g.k));
+    }
     // one third of the cases validate some fragments in place before they are damaged (or healed)
     std::vector<int> pre;
     if (!present.empty() && coin(1, 3)) {
@@ -713,7 +724,7 @@ static Result run_c19(const Case &c) {
     bool lost_dest = false;
     for (int d : c.ints("dests")) if (d >= 0 && d < g.n() && !(pm >> d & 1)) lost_dest = true;
     r.nontrivial = erased_data || lost_dest;
-    if (c.get("table_mode", 0)) r.cls("alt_table_encoding");
+    if (c.get("table_mode", 0)) r.cls("alt_table_encoding_" + std::to_string(c.get("table_mode", 0)));
     return r;
 }
 static Case gen_c19() {
@@ -731,7 +742,7 @@ static Case gen_c19() {
     for (int x : E) if (coin()) dests.push_back(x);
     if (coin(1, 3)) dests.push_back((int)pick(0, n - 1));
     c.setv("dests", dests);
-    c.set("table_mode", coin(1, 4) ? 1 : 0);
+    c.set("table_mode", weighted({3, 1, 1}));
     c.set("pool", 0);       // the table-encoding knob must stay constant over an instance's life
     if (c.get("table_mode") == 0 && coin(1, 3)) c.set("pool", 1);
     return c;
@@ -754,7 +765,7 @@ static void sweep_c19() {
                     std::vector<int> dests(E.begin(), E.end());
                     for (int d = 0; d < n; d++) if (std::find(E.begin(), E.end(), d) == E.end()) { dests.push_back(d); break; }
                     c.setv("dests", dests);
-                    c.set("table_mode", (counter / 7) & 1);
+                    c.set("table_mode", (counter / 7) % 3);
                     sweep_case(c, run_c19);
                 });
         }
@@ -870,6 +881,7 @@ int main(int argc, char **argv) {
     h.mode("c03_xor_sweep", [] { sweep_xor_within(run_c03, opts().tier == "thorough"); }, run_c03);
     h.mode("c03_rs_sweep", [] { sweep_rs_boundary(run_c03, ref::B_RS, true); }, run_c03);
     h.mode("c05_decode_sweep", sweep_xor_c05, run_c05);
+    h.mode("c05_large", [] { sweep_large(run_c05, true); }, run_c05);
     h.mode("c05_mt", sweep_c05_mt, run_c05_mt);
     h.mode("c19", [] { rc_property("C19 ISA-L adapters", gen_c19, run_c19); }, run_c19);
     h.mode("c19_sweep", sweep_c19, run_c19);
